@@ -305,9 +305,19 @@ func (i *Interpreter) Define(clauseText string) error {
 	if err != nil {
 		return fmt.Errorf("parsing failed: %v", err)
 	}
+	previous := i.buffer
+	// restore re-establishes the interactive definitions that were in effect
+	// before a rejected definition.
+	restore := func() {
+		i.resetInteractiveDefs("")
+		if previous != "" {
+			i.Define(previous)
+		}
+	}
 	i.resetInteractiveDefs(buffer)
 	programInfo, err := analysis.AnalyzeOneUnit(unit, copyDecls(i.knownPredicates))
 	if err != nil {
+		restore()
 		return fmt.Errorf("analysis failed: %v", err)
 	}
 	i.pushSourceFragment(interactivePath, []parse.SourceUnit{unit}, programInfo)
@@ -315,6 +325,7 @@ func (i *Interpreter) Define(clauseText string) error {
 	// let the user control when to evaluate rules.
 	err = i.evalProgram(programInfo)
 	if err != nil {
+		restore()
 		return fmt.Errorf("evaluation failed: %v", err)
 	}
 	var preds []ast.PredicateSym
